@@ -329,44 +329,46 @@ where
 {
     pub fn push<E: Emplacer<T>>(&mut self, emplacer: E) -> Result<&mut T, Error> {
         let offset_size = FlexVec::<T, L>::OFFSET_SIZE;
+        let insufficient_size = |pos| Error {
+            kind: ErrorKind::InsufficientSize,
+            pos,
+        };
 
-        let mut data = &mut self.data;
+        // Find the position of the new offset slot.
+        // If the last item is marked by `L::MAX` then also find the offset to seal it with.
         let mut pos = 0;
-
+        let mut seal = None::<(usize, L)>;
         loop {
-            let offset = *L::from_bytes(data)?;
+            let data = self.data.get(pos..).ok_or(insufficient_size(pos))?;
+            let offset = *L::from_bytes(data).map_err(|e| e.offset(pos))?;
             if offset == L::zero() {
                 break;
             } else if offset == L::max_value() {
-                let (offset_slot, payload) = data.split_at_mut(offset_size);
+                let payload = data.get(offset_size..).ok_or(insufficient_size(pos))?;
                 let payload_size = ceil_mul(T::from_bytes(payload)?.size(), Self::ALIGN);
                 let last_offset = offset_size + payload_size;
-                pos += last_offset;
-                L::from_usize(last_offset)
+                let sealed = L::from_usize(last_offset)
                     .and_then(|o| if o < L::max_value() { Some(o) } else { None })
-                    .ok_or(Error {
-                        kind: ErrorKind::InsufficientSize,
-                        pos,
-                    })?
-                    .emplace(offset_slot)?;
-                (_, data) = payload.split_at_mut(payload_size);
+                    .ok_or(insufficient_size(pos + last_offset))?;
+                seal = Some((pos, sealed));
+                pos += last_offset;
                 break;
             }
-            let offset = offset.to_usize().unwrap();
-            pos += offset;
-            (_, data) = data.split_at_mut(offset);
+            pos += offset.to_usize().unwrap();
         }
 
-        if data.len() < offset_size {
-            return Err(Error {
-                kind: ErrorKind::InsufficientSize,
-                pos,
-            });
+        if self.data.len() < pos + offset_size {
+            return Err(insufficient_size(pos));
         }
 
-        let (offset_slot, payload) = data.split_at_mut(offset_size);
-        L::max_value().emplace(offset_slot)?;
-        emplacer.emplace(payload)
+        // Emplace the item first, so that failed emplacement leaves the vector untouched.
+        emplacer.emplace(&mut self.data[(pos + offset_size)..])?;
+
+        if let Some((slot_pos, sealed)) = seal {
+            sealed.emplace(&mut self.data[slot_pos..])?;
+        }
+        L::max_value().emplace(&mut self.data[pos..])?;
+        Ok(unsafe { T::from_mut_bytes_unchecked(&mut self.data[(pos + offset_size)..]) })
     }
     pub fn push_default(&mut self) -> Result<&mut T, Error>
     where
